@@ -84,7 +84,13 @@ type world struct {
 	evRecord bool
 	evLog    []lockEv
 
-	conflict   []int // lock indices that conflict with an internal writer in this mode
+	conflict  []int // lock indices that conflict with an internal writer in this mode
+	xconflict []int // lock indices that conflict when a connection holds them EXCLUSIVELY (WAL mode: SHARED = SQLite's EXCLUSIVE lock)
+	// kern is the connections' own view of their locks (what the kernel's POSIX lock table says): a lock
+	// the connection was granted and has neither unlocked nor given up by closing that file. The property
+	// speaks about locks connections HOLD, not about what LiteFS remembers of them.
+	kern       map[*sim.Conn][]byte
+	probeSigs  map[string]int
 	walEnd     int64 // offset behind the last frame of the WAL (WalWrite probes go there)
 	hookCalls  int64
 	hookEntry  map[string]int
@@ -146,6 +152,42 @@ func (w *world) attach(n *sim.Node, clients []string, internals []string) {
 		w.conflict = []int{0, 1, 2}
 	} else {
 		w.conflict = []int{3, 4, 5, 6, 7, 8, 9, 10}
+		w.xconflict = []int{2}
+	}
+	w.kern = map[*sim.Conn][]byte{}
+}
+
+// kernOf returns the connection's own record of its locks (12 bytes U/S/X in the order of lockNames).
+func (w *world) kernOf(c *sim.Conn) []byte {
+	k := w.kern[c]
+	if k == nil {
+		k = []byte("UUUUUUUUUUUU")
+		w.kern[c] = k
+	}
+	return k
+}
+
+// kernUpdate records the effect of one request on the connection's own view: a granted fcntl lock sets
+// the byte range, an unlock clears it, closing a descriptor drops the locks of THAT file. A refused
+// request changes nothing (POSIX: all or nothing).
+func (w *world) kernUpdate(c *sim.Conn, r reqDef, ok bool) {
+	k := w.kernOf(c)
+	switch r.T {
+	case "R", "W":
+		if !ok {
+			return
+		}
+		st := byte('S')
+		if r.T == "W" {
+			st = 'X'
+		}
+		for _, l := range r.Ls {
+			k[lockIndex(l)] = st
+		}
+	case "U", "F":
+		for _, l := range r.Ls {
+			k[lockIndex(l)] = 'U'
+		}
 	}
 }
 
@@ -421,6 +463,9 @@ func (w *world) doReq(c *sim.Conn, r reqDef, predicted bool) (res reqResult, inf
 	res.Errno = sim.Errno(err)
 	res.OK = err == nil
 	res.Err = sim.ErrString(err)
+	if infra == nil {
+		w.kernUpdate(c, r, res.OK)
+	}
 	return res, infra
 }
 
@@ -536,7 +581,8 @@ func (o observed) diff(s *stateRec, procs map[string]*proc) string {
 	return strings.Join(d, "; ")
 }
 
-// clientsHolding lists "owner:LOCK=state" for every conflicting lock a client connection holds.
+// clientsHolding lists "owner:LOCK=state" for every conflicting lock a client connection holds: by
+// LiteFS's own guard sets, and by the connection's own view (a lock it was granted and did not give up).
 func (w *world) clientsHolding() []string {
 	var out []string
 	ids := map[string]uint64{"spare": spareOwner, "setup": setupOwner}
@@ -550,16 +596,114 @@ func (w *world) clientsHolding() []string {
 	sort.Strings(names)
 	for _, n := range names {
 		gs := w.db.GuardSet(ids[n])
-		if gs == nil {
-			continue
+		var kern []byte
+		if c := w.clients[n]; c != nil {
+			kern = w.kern[c]
+		}
+		one := func(i int, onlyExclusive bool) {
+			st := litefs.RWMutexStateUnlocked
+			if gs != nil {
+				st = gs.Guard(lockTypes[i]).State()
+			}
+			if st != litefs.RWMutexStateUnlocked && (!onlyExclusive || st == litefs.RWMutexStateExclusive) {
+				out = append(out, fmt.Sprintf("%s:%s=%s", n, lockNames[i], st))
+				return
+			}
+			if kern != nil && kern[i] != 'U' && (!onlyExclusive || kern[i] == 'X') {
+				out = append(out, fmt.Sprintf("%s:%s=%s (granted to the connection and not given up; LiteFS's guard set says %s)",
+					n, lockNames[i], map[byte]string{'S': "shared", 'X': "exclusive"}[kern[i]], st))
+			}
 		}
 		for _, i := range w.conflict {
-			if st := gs.Guard(lockTypes[i]).State(); st != litefs.RWMutexStateUnlocked {
-				out = append(out, fmt.Sprintf("%s:%s=%s", n, lockNames[i], st))
+			one(i, false)
+		}
+		for _, i := range w.xconflict {
+			one(i, true)
+		}
+	}
+	return out
+}
+
+// forgotten lists the locks a connection holds by its own view that LiteFS's guard set of that owner
+// does not show (weaker or absent).
+func (w *world) forgotten() []string {
+	var out []string
+	for _, n := range w.names {
+		kern := w.kern[w.clients[n]]
+		if kern == nil {
+			continue
+		}
+		g := guardString(w.db.GuardSet(clientIDs[n]))
+		for i := range lockNames {
+			if kern[i] != 'U' && (g[i] == 'U' || (kern[i] == 'X' && g[i] != 'X')) {
+				out = append(out, fmt.Sprintf("%s:%s held %c, guard set %c", n, lockNames[i], kern[i], g[i]))
 			}
 		}
 	}
 	return out
+}
+
+// entryProbe makes one complete, unpaused TryAcquireWriteLock (what apply, checkpoint, recover, import and
+// halt start with) and releases it again. Monitor (R1): it is not granted while a connection holds a
+// conflicting lock. Returns whether it was granted.
+func (w *world) entryProbe(at string, replay any) bool {
+	held := w.clientsHolding()
+	w.setRunning(nil)
+	var gs *litefs.GuardSet
+	core.Beat("real:TryAcquireWriteLock:" + at)
+	pn := core.Try(func() { gs = w.db.TryAcquireWriteLock() })
+	core.Beat("harness")
+	w.rep.Eval(1)
+	if pn != nil {
+		w.rep.Violate("C11.no-panic", "panic/TryAcquireWriteLock/"+at, pn, replay)
+		return false
+	}
+	if gs == nil {
+		return false
+	}
+	if sig := "entered-while-client-holds/" + firstLockOf(held) + "/" + w.mode + "/" + at; len(held) > 0 && w.probeSigs[sig] < 3 {
+		// (the same failing input class is reported at most three times per world)
+		if w.probeSigs == nil {
+			w.probeSigs = map[string]int{}
+		}
+		w.probeSigs[sig]++
+		w.rep.Violate("C11.enter-only-when-free", sig,
+			map[string]any{"at": at, "clients_holding": held, "lock_table_inside": w.observe(false).M, "lock_order": strings.Join(lockNames, ",")}, replay)
+	}
+	gs.Unlock()
+	return true
+}
+
+// readerProbe: while a connection holds PENDING or SHARED exclusively (by its own view) a new reader must
+// be refused. Two connections excluding each other is not a clause of C11 (see C12): a grant is recorded
+// as non-conformance of the lock table with the specification.
+func (w *world) readerProbe(at string) {
+	var excl []string
+	for _, n := range w.names {
+		k := w.kern[w.clients[n]]
+		if k != nil && (k[0] == 'X' || k[2] == 'X') {
+			excl = append(excl, n)
+		}
+	}
+	if len(excl) == 0 {
+		return
+	}
+	c := w.spare
+	if err := w.ensureOpen(c, false); err != nil {
+		core.Infra("spare connection: %v", err)
+	}
+	w.rep.Eval(1)
+	core.Beat("real:reader-probe")
+	defer core.Beat("harness")
+	e1 := c.LockDB(fuse.LockRead, sim.PendingByte, sim.PendingByte)
+	var e2 error
+	if e1 == nil {
+		e2 = c.LockDB(fuse.LockRead, sim.SharedFirst, sim.SharedFirst+sim.SharedSize-1)
+	}
+	_ = c.LockDB(fuse.LockUnlock, 0, math.MaxInt64)
+	if e1 == nil && e2 == nil {
+		w.rep.Nonconf("%s: a new connection was granted PENDING+SHARED read locks while %v hold(s) PENDING/SHARED exclusively (lock table %s)", at, excl, w.observe(false).M)
+	}
 }
 
 // ---- reset between replays ----
@@ -605,6 +749,7 @@ func (w *world) drain(p *proc) {
 }
 
 func (w *world) dropLocks(c *sim.Conn) {
+	delete(w.kern, c)
 	if c.DBOpen() {
 		_ = c.LockDB(fuse.LockUnlock, 0, math.MaxInt64)
 	}
